@@ -9,6 +9,7 @@ env = dict(os.environ, GOFLAGS="-mod=mod", GOPROXY="off", GOSUMDB="off", GOTOOLC
 # Tapes whose violation is meanwhile prevented by a second, later fix as well (or whose
 # schedule was shifted by a later change of the same function) are not listed: they
 # still replay clean on HEAD, but reverting one fix no longer brings the violation back.
+# (511ee29's two C04 tapes were validated until 8c57a91 rewrote the same function.)
 TABLE = [
  ("regress/C05/zombie-connection-after-shutdown.json", "de0edc7"),
  ("regress/C17/resolved-during-start-not-reported.json", "fef7e2e"),
@@ -17,8 +18,7 @@ TABLE = [
  ("regress/C10/cancel-in-init-phase-7f3aedc.json", "7f3aedc"),
  ("regress/C18/direct-notification-overtakes-delayed.json", "0ae2d62"),
  ("regress/C05/stale-attempt-after-graceful-close-7248753.json", "7248753"),
- ("regress/C04/closed-during-handler-511ee29.json", "511ee29"),
- ("regress/C04/closed-during-handler-shipid-511ee29.json", "511ee29"),
+ ("regress/C10/trust-after-unregister-inflight-report-8c57a91.json", "8c57a91"),
 ]
 pairs = TABLE
 if len(sys.argv) > 2:
